@@ -1499,7 +1499,83 @@ fn def_formula(rng: &mut Rng, st: &St) -> String {
 }
 
 /// A mostly valid op for the current state (it may still fail: e.g. a name that already exists).
+
+/// Target rectangles that stand in a given RELATION to the array anchored at (`ar`, `ac`) of size
+/// `w` x `h`: `contains` (the whole range, possibly one cell more), `partial` (a proper part that
+/// includes the anchor), `anchor-only`, `spill-only` (the last cell), `touch` (adjacent, disjoint).
+fn array_targets(ar: i32, ac: i32, w: i32, h: i32) -> Vec<(&'static str, (i32, i32, i32, i32))> {
+    // (r0, c0, r1, c1) inclusive
+    let mut v = vec![
+        ("contains", (ar, ac, ar + h - 1, ac + w - 1)),
+        ("contains", (ar, ac, ar + h, ac + w - 1)),
+        ("anchor-only", (ar, ac, ar, ac)),
+        ("spill-only", (ar + h - 1, ac + w - 1, ar + h - 1, ac + w - 1)),
+        ("touch", (ar + h, ac, ar + h, ac + w - 1)),
+    ];
+    if h > 1 {
+        v.push(("partial", (ar, ac, ar + h - 2, ac + w - 1)));
+        v.push(("spill-only", (ar + 1, ac, ar + h - 1, ac + w - 1)));
+    }
+    if w > 1 {
+        v.push(("partial", (ar, ac, ar + h - 1, ac + w - 2)));
+        v.push(("spill-only", (ar, ac + 1, ar + h - 1, ac + w - 1)));
+    }
+    v
+}
+
+/// Every operation that writes into / clears a rectangle, aimed at the target `t` (inclusive
+/// corners): autofill from the four sides (source band `gap` cells away from the target so that
+/// ordinary cells are filled before the array is reached), clears, copy/cut paste, csv paste.
+fn ops_onto_target(sheet: u32, t: (i32, i32, i32, i32), gap: i32) -> Vec<Op> {
+    let (r0, c0, r1, c1) = t;
+    let (th, tw) = (r1 - r0 + 1, c1 - c0 + 1);
+    let mut v = vec![];
+    // fill down: source rows above the target
+    if r0 - gap - 1 >= 1 {
+        let sh = if r0 - gap - 2 >= 1 { 2 } else { 1 };
+        v.push(Op::AutoFillRows { area: Ar::new(sheet, r0 - gap - sh, c0, tw, sh), to_row: r1 });
+    }
+    // fill up: source rows below the target
+    v.push(Op::AutoFillRows { area: Ar::new(sheet, r1 + gap + 1, c0, tw, 2), to_row: r0 });
+    // fill right: source columns left of the target
+    if c0 - gap - 1 >= 1 {
+        let sw = if c0 - gap - 2 >= 1 { 2 } else { 1 };
+        v.push(Op::AutoFillColumns { area: Ar::new(sheet, r0, c0 - gap - sw, sw, th), to_col: c1 });
+    }
+    // fill left: source columns right of the target
+    v.push(Op::AutoFillColumns { area: Ar::new(sheet, r0, c1 + gap + 1, 2, th), to_col: c0 });
+    v.push(Op::RangeClearContents { area: Ar::new(sheet, r0, c0, tw, th) });
+    v.push(Op::RangeClearAll { area: Ar::new(sheet, r0, c0, tw, th) });
+    // paste a block of the target's size taken from the rows below everything
+    for cut in [false, true] {
+        v.push(Op::Paste { src_sheet: sheet, r1: 12, c1: 1, r2: 12 + th - 1, c2: tw, dst_sheet: sheet, dst_row: r0, dst_col: c0, cut });
+    }
+    let line: Vec<&str> = (0..tw).map(|_| "7").collect();
+    let csv: Vec<String> = (0..th).map(|_| line.join("\t")).collect();
+    v.push(Op::PasteCsv { sheet, row: r0, col: c0, csv: csv.join("\n") });
+    v
+}
+
+/// A random operation aimed at one of the arrays of the state (CSE or dynamic, 1-D or 2-D), in a random
+/// relation to it.
+fn gen_array_op(rng: &mut Rng, st: &St) -> Op {
+    let (sheet, ar, ac, w, h, _cse) = *rng.pick(&st.arrays);
+    let targets = array_targets(ar, ac, w, h);
+    let (_, t) = *rng.pick(&targets);
+    let ops = ops_onto_target(sheet, t, rng.below(3) as i32);
+    // autofill is the first-class citizen here: 4 of the first entries are fills
+    let fills: Vec<&Op> = ops.iter().filter(|o| matches!(o, Op::AutoFillRows { .. } | Op::AutoFillColumns { .. })).collect();
+    if rng.chance(2, 3) && !fills.is_empty() {
+        (*rng.pick(&fills)).clone()
+    } else {
+        rng.pick(&ops).clone()
+    }
+}
+
 pub fn gen_valid_op(rng: &mut Rng, st: &St) -> Op {
+    if !st.arrays.is_empty() && rng.chance(14, 100) {
+        return gen_array_op(rng, st);
+    }
     let sheet = sheet_of(rng, st);
     let w = rng.below(1000);
     let pick_cf = |rng: &mut Rng, st: &St| -> Option<(u32, u32)> {
@@ -1512,16 +1588,31 @@ pub fn gen_valid_op(rng: &mut Rng, st: &St) -> Op {
         }
     };
     match w {
-        0..=249 => {
+        0..=219 => {
             let (row, col) = rc(rng);
             Op::SetUserInput { sheet, row, col, value: gen_input(rng, st, sheet, row, col) }
+        }
+        220..=234 => {
+            let a = small_area(rng, sheet);
+            let to_row = if rng.chance(2, 3) { a.row + a.height - 1 + rng.range(1, 4) as i32 } else { (a.row - rng.range(1, 3) as i32).max(1) };
+            Op::AutoFillRows { area: a, to_row }
+        }
+        235..=249 => {
+            let a = small_area(rng, sheet);
+            let to_col = if rng.chance(2, 3) { a.col + a.width - 1 + rng.range(1, 4) as i32 } else { (a.col - rng.range(1, 3) as i32).max(1) };
+            Op::AutoFillColumns { area: a, to_col }
         }
         250..=274 => {
             // anchors in columns A..C (at most two wide), sources in E:F: never self-overlapping
             let (row, _) = rc(rng);
-            let col = rng.range(1, 3) as i32;
-            let f = rng.pick(&["=E1:F2*2", "=SEQUENCE(2,2)", "=E1:E2", "=1+1", "=SUM(E1:E3)", "=E1:F2&\"!\""]).to_string();
-            Op::SetUserArrayFormula { sheet, row, col, width: rng.range(1, 2) as i32, height: rng.range(1, 2) as i32, formula: f }
+            let (width, height) = *rng.pick(&[(1, 1), (1, 2), (2, 1), (2, 2), (1, 3), (3, 1), (2, 2), (1, 2), (2, 1)]);
+            let col = rng.range(1, (4 - width) as i64) as i32;
+            let f = match (width, height) {
+                (1, 3) => rng.pick(&["=E1:E3*2", "=E1:E3"]).to_string(),
+                (3, 1) => rng.pick(&["=E1:G1*2", "=E1:G1"]).to_string(),
+                _ => rng.pick(&["=E1:F2*2", "=SEQUENCE(2,2)", "=E1:E2", "=1+1", "=SUM(E1:E3)", "=E1:F2&\"!\""]).to_string(),
+            };
+            Op::SetUserArrayFormula { sheet, row, col, width, height, formula: f }
         }
         275..=299 => Op::RangeClearContents { area: small_area(rng, sheet) },
         300..=324 => Op::RangeClearAll { area: small_area(rng, sheet) },
@@ -2042,6 +2133,63 @@ pub fn invalid_table_with(st: &St, pick: &mut dyn FnMut(u64) -> u64) -> Vec<Inva
     t.push(inv_s(cse.clone(), Op::Paste { src_sheet: s, r1: 1, c1: 1, r2: 1, c2: 1, dst_sheet: s, dst_row: ar + 1, dst_col: ac + 1, cut: false }, sp));
     t.push(inv_s(cse.clone(), Op::Paste { src_sheet: s, r1: ar, c1: ac, r2: ar, c2: ac + 1, dst_sheet: s, dst_row: ar + 4, dst_col: ac, cut: true }, sp));
     t.push(inv_s(cse.clone(), Op::SetCellLink { sheet: s, row: ar + 1, col: ac + 1, external: true, target: "https://x.org".into(), tooltip: None, label: Some("lbl".into()) }, sp));
+
+    // ---- every rectangle-writing operation x every relation to an array x array shape x kind:
+    // whatever the engine decides (accept or reject), a rejected call must change nothing
+    let (ar, ac) = (7, 6);
+    for (w, h) in [(1, 3), (3, 1), (2, 2), (1, 2), (2, 3)] {
+        for dynamic in [false, true] {
+            // source values for the fills and the paste block; array source far to the right
+            let mut setup = vec![];
+            for i in 0..3 {
+                setup.push(Op::SetUserInput { sheet: s, row: 1 + i, col: 15, value: format!("{}", 10 * (i + 1)) });
+                setup.push(Op::SetUserInput { sheet: s, row: 1, col: 15 + i, value: format!("{}", 10 * (i + 1)) });
+            }
+            let f = format!("={}:{}*1", a1(1, 15), a1(h, 15 + w - 1));
+            if dynamic {
+                setup.push(Op::SetUserInput { sheet: s, row: ar, col: ac, value: f });
+            } else {
+                setup.push(Op::SetUserArrayFormula { sheet: s, row: ar, col: ac, width: w, height: h, formula: f });
+            }
+            for (rel, tg) in array_targets(ar, ac, w, h) {
+                let class: &'static str = match (rel, dynamic) {
+                    ("contains", false) => "cse-array-contained",
+                    ("partial", false) => "cse-array-partial",
+                    ("anchor-only", false) => "cse-array-anchor-only",
+                    ("spill-only", false) => "cse-array-spill-only",
+                    ("touch", false) => "cse-array-touch",
+                    ("contains", true) => "dyn-array-contained",
+                    ("partial", true) => "dyn-array-partial",
+                    ("anchor-only", true) => "dyn-array-anchor-only",
+                    ("spill-only", true) => "dyn-array-spill-only",
+                    _ => "dyn-array-touch",
+                };
+                for gap in [0, 2] {
+                    for op in ops_onto_target(s, tg, gap) {
+                        // neighbours of the target get values so that fills have something to write before the array
+                        let mut su = setup.clone();
+                        if let Op::AutoFillRows { area, .. } | Op::AutoFillColumns { area, .. } = &op {
+                            for r in area.row..area.row + area.height {
+                                for c in area.col..area.col + area.width {
+                                    if !(r >= ar && r < ar + h && c >= ac && c < ac + w) {
+                                        su.push(Op::SetUserInput { sheet: s, row: r, col: c, value: format!("{}", r + c) });
+                                    }
+                                }
+                            }
+                        }
+                        if let Op::PasteCsv { row, col, .. } = &op {
+                            // paste_csv_string re-selects the pasted range and fails (after recording: F04n)
+                            // unless the selected cell is a corner of it; select the corner first so that the
+                            // interplay with the array is what is tested
+                            su.push(Op::SetSelectedSheet { sheet: s });
+                            su.push(Op::SetSelectedCell { row: *row, col: *col });
+                        }
+                        t.push(inv_s(su, op, class));
+                    }
+                }
+            }
+        }
+    }
     t
 }
 
